@@ -80,6 +80,14 @@ fn path_monitoring_reader(path: &str) -> Result<Vec<u8>, Box<dyn std::error::Err
     }
     // a virtual file system with files in the second directory only, for every name of even length: the search
     // must pass over the failing first directory whatever ambient state the calling thread carries
+    // a third directory serves every name whose length is a multiple of three, with other contents: for lengths
+    // that are multiples of six the answer depends on the order in which the listed directories are tried, which
+    // must be the order of the list on every thread and in every call
+    if let Some(name) = path.strip_prefix("/tzmon-d3/") {
+        if name.len() % 3 == 0 && !name.is_empty() {
+            return Ok(crate::mon::c20::valid_file(name.len() as i32 * 60 + 1800));
+        }
+    }
     match path.strip_prefix("/tzmon-d2/") {
         Some(name) if name.len() % 2 == 0 && !name.is_empty() => Ok(crate::mon::c20::valid_file(name.len() as i32 * 60)),
         _ => Err("No such file or directory (virtual)".into()),
@@ -135,7 +143,9 @@ pub fn execute(s: &Shared, ops: &[Op], yield_seed: Option<u64>) -> (u64, u64) {
             Op::ParseString(k) => {
                 // two absolute directories, a reader that has no file: every path handed to it must be absolute,
                 // a relative one would be resolved against the process-wide working directory
-                let settings = TimeZoneSettings::new(&["/tzmon-d1", "/tzmon-d2"], path_monitoring_reader);
+                // (directory lists with a repeated entry and with two directories that both serve a name included)
+                const LISTS: [&[&str]; 4] = [&["/tzmon-d1", "/tzmon-d2"], &["/tzmon-d1", "/tzmon-d2", "/tzmon-d1"], &["/tzmon-d3", "/tzmon-d2", "/tzmon-d3", "/tzmon-d1"], &["/tzmon-d2", "/tzmon-d1", "/tzmon-d3", "/tzmon-d2"]];
+                let settings = TimeZoneSettings::new(LISTS[(*k / s.strings.len().max(1)) % 4], path_monitoring_reader);
                 match settings.parse_posix_tz(&s.strings[*k % s.strings.len()]) {
                     Ok(z) => {
                         h = h.i(z.as_ref().local_time_types().len() as i64);
@@ -331,7 +341,7 @@ pub fn run(ctx: &Ctx) -> Report {
     static LEAKED: std::sync::OnceLock<&'static TimeZone> = std::sync::OnceLock::new();
     let leaked: &'static TimeZone = LEAKED.get_or_init(|| Box::leak(Box::new(TimeZone::from_tz_data(&files[0]).unwrap_or_else(|_| TimeZone::utc()))));
     // TZ values of every shape (descriptions, file names, ':' values, "localtime", empty): all resolution paths are inside the window
-    let strings: Vec<String> = IANA_FOOTERS.iter().map(|s| s.to_string()).chain(crate::mon::c20::VALUES.iter().map(|s| s.to_string())).chain(["garbage".to_string(), "EST5EDT".to_string()]).collect();
+    let strings: Vec<String> = IANA_FOOTERS.iter().map(|s| s.to_string()).chain(crate::mon::c20::VALUES.iter().map(|s| s.to_string())).chain(["garbage".to_string(), "EST5EDT".to_string(), "Zone/A".to_string(), ":Zone/A".to_string(), "Europe/Paris".to_string(), "abcdef".to_string(), "Asia/Seoul/xx".to_string(), "America/Boise".to_string()]).collect();
     let shared = Shared { zones, leaked, files, strings };
 
     let rounds = ctx.n(3, 12);
